@@ -42,6 +42,10 @@ pub trait Model: Sync {
     fn op_class(&self, op: &Self::Op) -> String {
         format!("{:?}", op)
     }
+    /// key text of a minimised history (default: classes in call order)
+    fn history_key(&self, hist: &[Self::Op]) -> String {
+        hist.iter().map(|o| self.op_class(o)).collect::<Vec<_>>().join(";")
+    }
     fn op_label(&self, op: &Self::Op) -> String {
         let d = format!("{:?}", op);
         d.split(|c: char| c == '(' || c == '{' || c == ' ').next().unwrap_or("").to_string()
@@ -100,9 +104,8 @@ fn report_failure<M: Model>(m: &M, rep: &Report, hist: &[M::Op], f: &Fail, case_
         _ => f.detail.clone(),
     };
     let ops: Vec<String> = min.iter().map(|o| format!("{:?}", o)).collect();
-    let classes: Vec<String> = min.iter().map(|o| m.op_class(o)).collect();
     rep.violation(Violation {
-        key: format!("{}|{}|{}", m.name(), f.sig, classes.join(";")),
+        key: format!("{}|{}|{}", m.name(), f.sig, m.history_key(&min)),
         what: format!("history [{}]: {}", ops.join(", "), detail),
         case: json!({"model": m.name(), "ops": ops, "extra": case_extra}),
     });
